@@ -1386,6 +1386,15 @@ REACH = ["AB", "A", "B"]
 
 
 def run_case(case):
+    if case.get("kind") == "e2e":
+        # the path BETWEEN the two Managers: `dilate-N` phases travel through the mailbox and are put back in order by
+        # each side's Boss before the Manager sees them.  A long dilated session (every reconnect costs two or three
+        # `dilate-N` messages) reaches two-digit N; the Managers re-converge only if these still arrive, in order.
+        # Run on two real clients (C03's whole-client world), judged by the dilate-* clauses of its oracle.
+        from . import c03
+        r = c03.run_case(case)
+        keep = [(sg, m) for sg, m in r.violations if sg.startswith("dilate-")]
+        return Result([], [], keep, ["mailbox-path:dilate-two-digit"], True)
     reach = case.get("reach", "AB")
     relay = case.get("relay")
     if "ops" in case:
@@ -1466,6 +1475,11 @@ def exhaustive_loss_cases():
 
 def cases(rng, tier):
     out = [dict(c) for c in CORPUS]
+    from . import c03
+    out.append(c03.dil_case(list(range(15)), [False, False], ndil=13, nmsg=2))
+    out.append(c03.dil_case([12, 11, 10] + list(range(10)) + [13, 14], [True, False], ndil=13, nmsg=2))
+    if tier == "thorough":
+        out.append(c03.dil_case(list(range(42)), [True, True], ndil=40, nmsg=2))
     if tier == "thorough":
         out += exhaustive_loss_cases()
     for i, p in enumerate(PROFILES):
